@@ -228,7 +228,7 @@ func (e *enc) instr(b *ssa.BasicBlock, ins ssa.Instruction) {
 		e.binop(b, i)
 	case *ssa.Phi:
 		if _, isHeader := e.headers[b]; isHeader {
-			e.havoc(i)
+			e.allocFacts(e.havoc(i), i.Type())
 			return
 		}
 		if e.sortOf(i.Type()) == "TUPLE" {
@@ -270,6 +270,8 @@ func (e *enc) instr(b *ssa.BasicBlock, ins ssa.Instruction) {
 			if rg, ok := i.Iter.(*ssa.Range); ok {
 				if mt, ok := rg.X.Type().Underlying().(*types.Map); ok {
 					ks, vs := e.sortOf(mt.Key()), e.sortOf(mt.Elem())
+					e.harr("MapLen", "(Array Ref "+e.isort()+")")
+					e.assume(fmt.Sprintf("(=> %s.c0 (and (not (= %s 0)) %s))", n, e.val(rg.X), e.icmp(token.GTR, "(select "+e.hname("MapLen")+" "+e.val(rg.X)+")", e.ilit(0), false)))
 					if _, ok := e.valsNonnilOf(rg.X); ok {
 						if t := nonnilTerm(vs, n+".c2"); t != "" && t != "true" {
 							e.assume(fmt.Sprintf("(=> %s.c0 %s)", n, t))
@@ -615,6 +617,9 @@ func (e *enc) loadFacts(n string, i *ssa.UnOp, l loc) {
 	if l.sort == "Iface" && l.arr != "" {
 		e.assume(fmt.Sprintf("(=> (is-IPtr %s) %s)", n, e.allocatedIn("(iptr "+n+")", l.arr, e.heap, l.ref)))
 	}
+	if l.sort == "Slice" && l.arr != "" {
+		e.assume(e.allocatedIn("(arr "+n+")", l.arr, e.heap, l.ref))
+	}
 	if fa, ok := i.X.(*ssa.FieldAddr); ok {
 		pt := fa.X.Type().Underlying().(*types.Pointer).Elem()
 		st := pt.Underlying().(*types.Struct)
@@ -737,6 +742,8 @@ func (e *enc) mapUpdate(b *ssa.BasicBlock, i *ssa.MapUpdate) {
 		}
 	}
 	e.callOrd["#mapupdate"]++
+	e.siteExtra = map[string]cval{"mapref": {m, "Ref", i.Map.Type()}, "mapkey": {k, ks, mt.Key()}, "mapval": {v, vs, mt.Elem()}}
+	defer func() { e.siteExtra = nil }()
 	e.siteAsserts(i, fmt.Sprintf("mapupdate %d", e.callOrd["#mapupdate"]), nil, nil, R)
 	e.harr("MapLen", "(Array Ref "+e.isort()+")")
 	if !mapSupported(ks, vs) {
